@@ -113,6 +113,8 @@ def _dms_obj(a, neg, d, m, sec, form):
     (a negative-zero degree when every field is zero or only the degree is), or the formatted string."""
     if form == "flag":
         return a.DMSAngle(d, m, sec, positive=not neg)
+    if form == "kw":
+        return a.DMSAngle(degree=d, minute=m, second=sec, positive=not neg)
     if form == "string":
         return a.DMSAngle("%s%d %d %s" % ("-" if neg else "", d, m, repr(float(sec))))
     if not neg:
@@ -127,6 +129,8 @@ def _dms_obj(a, neg, d, m, sec, form):
 def _ddm_obj(a, neg, d, minute, form):
     if form == "flag":
         return a.DDMAngle(d, minute, positive=not neg)
+    if form == "kw":
+        return a.DDMAngle(degree=d, minute=minute, positive=not neg)
     if form == "string":
         return a.DDMAngle("%s%d %s" % ("-" if neg else "", d, repr(float(minute))))
     if not neg:
@@ -265,17 +269,19 @@ def _build(notation, neg, d, m, s_nano, form="flag"):
     if notation == "hp":
         return AR.hp_literal(neg, d, m, s_nano, places)
     if notation == "hpa":
+        if form == "kw":
+            return a.HPAngle(hp_angle=AR.hp_literal(neg, d, m, s_nano, places))
         return a.HPAngle(AR.hp_literal(neg, d, m, s_nano, places))
     dec = float(sg * secs / 3600)
     if notation == "dec":
         return dec
     if notation == "deca":
-        return a.DECAngle(dec)
+        return a.DECAngle(dec_angle=dec) if form == "kw" else a.DECAngle(dec)
     gon = float(sg * secs / 3240)
     if notation == "gon":
         return gon
     if notation == "gona":
-        return a.GONAngle(gon)
+        return a.GONAngle(gon_angle=gon) if form == "kw" else a.GONAngle(gon)
     if notation == "rad":
         return float(sg * secs * AR.PI / 648000)
     if notation == "dms":
@@ -347,7 +353,7 @@ def angle_fields(draw):
         s_nano = draw(st.sampled_from([0, 1, 5 * 10 ** 8, 59999999999, 59999999990, 10 ** 9 - 1, 10 ** 9]))
     if d == 720:
         m, s_nano = 0, 0
-    return {"neg": neg, "d": d, "m": m, "s_nano": s_nano, "ctor": draw(st.sampled_from(FORMS))}
+    return {"neg": neg, "d": d, "m": m, "s_nano": s_nano, "ctor": draw(st.sampled_from(FORMS + ["kw"]))}
 
 
 chain_cases = st.builds(lambda f, src, chain, num: dict(f, src=src, chain=chain, num=num), angle_fields(), st.sampled_from(AR.NOTATIONS),
